@@ -14,13 +14,13 @@ pub struct C16Case
 {
     pub use_cache: Option<bool>,
     pub structured: Option<bool>,
-    /// 0 omitted, 1 [rs], 2 [rsx]
+    /// 0 omitted, 1 [rs], 2 [rsx], 3 [rs, ""]
     pub extensions: u8,
     /// 0 absent 1 valid-ahead 2 corrupt text 3 empty 4 wrong type 5 negative 6 > u32
     pub lock: u8,
     pub check_mode: bool,
     pub has_missing: bool,
-    /// 0 none; 1 config missing 2 invalid yaml 3 wrong shape 4 source_dir key absent 5 source dir missing 6 source dir is a file 7 nothing in scope
+    /// 0 none; 1 config missing 2 invalid yaml 3 wrong shape 4 source_dir key absent 5 source dir missing 6 source dir is a file 7 nothing in scope 8 extensions [""] with only extension-less and other files (nothing in scope)
     pub error_point: u8,
     pub variety: u16,
 }
@@ -45,12 +45,19 @@ fn yaml(c: &C16Case) -> String
         y.push_str(&format!("  structured: {}\n", s));
     }
     y.push_str("  log_macros:\n    - module: log\n      name: info\n    - module: log\n      name: warn\n");
-    let ext = if c.error_point == 7 { 3 } else { c.extensions };
+    let ext = match c.error_point
+    {
+        7 => 9,
+        8 => 8,
+        _ => c.extensions,
+    };
     match ext
     {
         1 => y.push_str("  extensions:\n    - rs\n"),
         2 => y.push_str("  extensions:\n    - rsx\n"),
-        3 => y.push_str("  extensions:\n    - zzz\n"),
+        3 => y.push_str("  extensions:\n    - rs\n    - \"\"\n"),
+        8 => y.push_str("  extensions:\n    - \"\"\n"),
+        9 => y.push_str("  extensions:\n    - zzz\n"),
         _ => (),
     }
     y
@@ -103,6 +110,10 @@ fn build(c: &C16Case, lock_kind: u8) -> Built
     tree.insert("src/a.rs".into(), Node::File(a.into_bytes()));
     let canary = if c.has_missing { "fn b() {\n    info!(\"rsx canary\");\n}\n".to_string() } else if structured { "fn b() {\n    info!(ref = 77; \"rsx canary\");\n}\n".to_string() } else { "fn b() {\n    info!(\"[ref: 77] rsx canary\");\n}\n".to_string() };
     tree.insert("src/b.rsx".into(), Node::File(canary.into_bytes()));
+    // files without any extension never are in scope, whatever the extension list says
+    tree.insert("src/notes".into(), Node::File(b"fn n() {\n    info!(\"no extension\");\n}\n".to_vec()));
+    tree.insert("src/sub".into(), Node::Dir);
+    tree.insert("src/sub/.hidden".into(), Node::File(b"fn h() {\n    warn!(\"dot file\");\n}\n".to_vec()));
     if c.has_missing
     {
         tree.insert("src/sub/c.rs".into(), Node::File(b"fn c() {\n    info!(\"deep\");\n}\n".to_vec()));
@@ -198,7 +209,8 @@ pub fn check(c: &C16Case) -> CaseOutcome
         let files: Vec<String> = r.report.file_totals.iter().map(|x| x.0.clone()).collect();
         let saw_rsx = files.iter().any(|f| f.ends_with(".rsx"));
         let saw_rs = files.iter().any(|f| f.ends_with(".rs"));
-        if saw_rsx != rsx || saw_rs == rsx
+        let saw_other = files.iter().any(|f| !f.ends_with(".rsx") && !f.ends_with(".rs"));
+        if saw_rsx != rsx || saw_rs == rsx || saw_other
         {
             o.fail("extensions-default", format!("{}: --check scanned {:?}", what, files));
         }
@@ -227,7 +239,7 @@ pub fn check(c: &C16Case) -> CaseOutcome
             {
                 o.fail("structured-default", format!("{}: {} received a {:?} token", what, rel, kind));
             }
-            if rel.ends_with(".rsx") != rsx
+            if rel.ends_with(".rsx") != rsx || !(rel.ends_with(".rsx") || rel.ends_with(".rs"))
             {
                 o.fail("extensions-default", format!("{}: {} was edited", what, rel));
             }
@@ -399,7 +411,7 @@ pub fn matrix(reps: u16) -> Vec<C16Case>
         {
             for structured in [None, Some(true), Some(false)]
             {
-                for extensions in 0..3u8
+                for extensions in 0..4u8
                 {
                     for lock in 0..7u8
                     {
@@ -424,7 +436,7 @@ pub fn matrix(reps: u16) -> Vec<C16Case>
                 }
             }
         }
-        for error_point in 1..=7u8
+        for error_point in 1..=8u8
         {
             for check_mode in [false, true]
             {
@@ -458,7 +470,7 @@ pub fn run(env: &Env, rec: &Recorder) -> (String, Vec<&'static str>)
     enumerate(env, rec, "matrix", m, &check);
     rec.set_exhaustive(true);
     (
-        "the complete matrix use_cache {omitted,true,false} x structured {omitted,true,false} x extensions {omitted,[rs],[rsx]} x lock {absent, valid ahead of the tree, corrupt text, empty, wrong type, negative, > u32} x mode {edit,check} x tree {references missing, none missing}, plus 7 error points (config missing, invalid YAML, wrong shape, source_dir key absent, source dir missing, source dir a file, nothing in scope) x mode x lock x use_cache; small trees vary with the point (thorough: 20 variants per point). Oracle (reference model of the guide): disabled cache => lock untouched and IDs equal to the lock-absent baseline; omitted == true: inserting edit writes a parsable lock ahead of its IDs and a later run (after deleting the highest statement and adding one; for half of the points also after the configuration file got a newer timestamp than the lock) starts from the lock; unparsable lock => IDs equal to the lock-absent baseline and lock rewritten; structured/extension defaults; every error point => exit != 0 and strict snapshot equality. Non-trivial = any point other than all-explicit defaults with the lock absent".to_string(),
+        "the complete matrix use_cache {omitted,true,false} x structured {omitted,true,false} x extensions {omitted,[rs],[rsx],[rs, empty string]} x lock {absent, valid ahead of the tree, corrupt text, empty, wrong type, negative, > u32} x mode {edit,check} x tree {references missing, none missing}, plus 8 error points (config missing, invalid YAML, wrong shape, source_dir key absent, source dir missing, source dir a file, nothing in scope, extension list holding only the empty string over a tree of extension-less, hidden and .rs files); every tree holds an extension-less file and a dot file with statements lacking references, which never are in scope x mode x lock x use_cache; small trees vary with the point (thorough: 20 variants per point). Oracle (reference model of the guide): disabled cache => lock untouched and IDs equal to the lock-absent baseline; omitted == true: inserting edit writes a parsable lock ahead of its IDs and a later run (after deleting the highest statement and adding one; for half of the points also after the configuration file got a newer timestamp than the lock) starts from the lock; unparsable lock => IDs equal to the lock-absent baseline and lock rewritten; structured/extension defaults; every error point => exit != 0 and strict snapshot equality. Non-trivial = any point other than all-explicit defaults with the lock absent".to_string(),
         vec!["only unambiguous invalid configurations are asserted; unknown extra keys and an omitted rust stanza are not asserted either way", "exhaustive=true: every point of the stated matrix was visited"],
     )
 }
